@@ -33,6 +33,24 @@ TEXT = {
             "threshold; classification glue of update_node_liveness. Configurations are enumerated (5), not symbolic: symbolic x symbolic double division does not finish.", "4"),
     "C11": ("Float part: steady heartbeats in [a,b] stay within the threshold (exact short histories and arbitrary windows); fewer than two fresh heartbeats => no phi. "
             "Classification glue (alive iff phi <= threshold, window cleared while dead).", "4"),
+    "C05": ("Three pieces of the mechanism, each on the real code: (i) a delta section whose max version and watermark are not above the copy it is applied to (the owner is the most advanced "
+            "copy, C03's invariant for every honest source) is rejected by the real apply_delta and changes nothing; (ii) the real per-member sender decision offers nothing when its copy is not "
+            "ahead of the digest; (iii) the real Chitchat::report_heartbeat ignores the node's own id in a digest. The message-level glue (process_message) does not fit the solver and is not executed.", "4"),
+    "C07": ("Size part: the real CompressedStreamWriter under the any-length codec model never produces more bytes than the upper bound it announced before the last append (items up to one block, "
+            "thresholds 8/16; the bound is checked to be attained exactly). Content part: the real StaleNode::stale_key_values yields exactly the entries above the start version in ascending order; "
+            "scheduled-for-deletion members are skipped by the real delta computation; thorough tier: the whole real compute_partial_delta_respecting_mtu against the reference model at every "
+            "truncation point. NOT covered: the message-level budget arithmetic (observations O-1/O-2 in DESIGN.md), items longer than one block, real payload sizes.", "4"),
+    "C09": ("Structure-aware part only: the real DeltaBuilder on op sequences of every kind pattern up to 3 ops (grouping, duplicate members, ops without header, non-increasing versions, "
+            "SetMaxVersion below received key-values - finding F-3, fixed) and the real apply_delta on every delta the decoder can admit (no panic, frontier monotone, hence the monotonicity assert "
+            "of ClusterState::apply_delta is unreachable). Byte-level decoding of arbitrary buffers does not fit (deserialize_stream allocates and scans a 64 KiB block buffer) and is NOT claimed.", "4"),
+    "C12": ("Detector level: scheduled-for-deletion after half the grace period and removal at the full period (clock symbolic at ns resolution), classification exclusive (exactly one of "
+            "live/dead, time of death kept), re-creation guard of report_heartbeat (recreated only by a strictly higher heartbeat, without liveness evidence), scheduled members skipped by the real "
+            "delta computation. Chitchat::update_nodes_liveness as a whole does not fit the solver and is not executed.", "4"),
+    "C15": ("Real Listeners/InnerListeners dispatch with up to two subscriptions (prefixes concrete per query from {'', a, e-acute, a+e-acute, 4-byte emoji}), key symbolic over all strings of <= 2 symbols of a "
+            "1/2/4-byte alphabet, dropped and forever() handles: each live subscription called exactly once iff its prefix is a prefix of the key, with the stripped key; no panic for any key of <= 2 "
+            "arbitrary chars (finding F-2, fixed). Up to 8 prefixes / longer strings are outside the bound.", "4"),
+    "C17": ("Real select_nodes_for_gossip and its two helpers with every random draw symbolic (rand's sampling modelled by contract): universe of up to 4 addresses with symbolic membership in "
+            "peers/live/dead/seeds.", "4"),
     "C14": ("Both coded decisions run from the real code on the same symbolic frontiers: the sender's per-member reset decision / start version (real compute_partial_delta_respecting_mtu) and the "
             "receiver's admission (real check_delta_status/apply_delta) agree for ALL u64 frontiers (key-less) and for 3-key copies with versions 0..7 at every truncation point.", "4"),
 }
